@@ -40,24 +40,39 @@ PROPS["C08"] = {
 }
 
 SC3 = ["CO_VERIF_SDO_BUF_SEG=3"]
+REAL1K = ["SDO_DS2=1000"]
+TWO3 = ["CO_SSDO_N=2", "CO_VERIF_SDO_BUF_SEG=3"]
+CLOSE = {"coarse": 1, "small": 1, "fewinit": 1}
+def sdo_jobs(h, quick):
+    if quick:
+        return [J(h, 0, defs=SC3, depth=60, deadline=150, opts=CLOSE),                      # closed state space, scaled buffer
+                J(h, 1, defs=SC3, depth=60, deadline=150, opts=CLOSE),                      # ... in OPERATIONAL
+                J(h, 0, defs=SC3, depth=2, deadline=100),                                   # fine state identity, full alphabet
+                J(h, 0, defs=SC3, depth=3, deadline=100, opts={"small": 1, "fewinit": 1}),  # fine state identity, reduced alphabet
+                J(h, 0, defs=REAL1K, depth=3, deadline=100, opts={"small": 1, "fewinit": 1, "coarse": 1}),   # real 127-segment buffer
+                J(h, 0, defs=TWO3, depth=4, deadline=100, opts=CLOSE)]                      # two servers interleaved
+    return [J(h, 0, defs=SC3, depth=60, deadline=1500, opts={"coarse": 1}, max_states=20000000),
+            J(h, 1, defs=SC3, depth=60, deadline=1500, opts=CLOSE),
+            J(h, 0, defs=SC3, depth=3, deadline=1200, max_states=20000000),
+            J(h, 0, defs=SC3, depth=5, deadline=1200, opts={"small": 1, "fewinit": 1}, max_states=20000000),
+            J(h, 0, defs=REAL1K, depth=5, deadline=1200, opts={"small": 1, "fewinit": 1, "coarse": 1}, max_states=20000000),
+            J(h, 0, defs=REAL1K, depth=3, deadline=1200, opts={"small": 1}, max_states=20000000),
+            J(h, 0, defs=TWO3, depth=6, deadline=1200, opts=CLOSE, max_states=20000000)]
+
 PROPS["C04"] = {
     "level": "model_checking",
     "technique": "explicit-state BFS over the full SDO command alphabet against the real server with an allowed-set reference server",
-    "text": "tbd", "note": "tbd",
-    "jobs": {
-        "quick": [J("c04", 0, defs=SC3, depth=40, deadline=100, opts={"coarse": 1})],
-        "thorough": [J("c04", 0, defs=SC3, depth=40, deadline=900)],
-    },
+    "text": 'BFS over the real SDO server(s) with an alphabet of ~630 request frames (all 256 command bytes; initiate requests of every kind to every object class incl. missing index/sub-index, RO/WO, node-id relative, domains smaller/larger than the buffer, strings, range- and user-abort types, with size fields =,<,>,0; acknowledges for all ackseq x blksize classes), in lockstep with a reference server that yields the set of admissible responses per protocol state. Per step: number of response frames, multiplexer, abort code, toggle/size/last flags, data, and the complete dictionary image are compared. The scaled-buffer build (3 segments) is explored to a fixpoint under a coarse state identity; fine state identity to depth 2-3; the real 127-segment buffer and a two-server build to a depth bound.',
+    "note": 'coarse state identity zeroes fields the next initiate re-initialises (assumed dead; cross-checked by the fine explorations to their depth); application data is rewritten to its initial value whenever all servers are idle; requests in block-download phases are judged as segments (CiA 301 cannot tell them apart); out-of-protocol non-initiate requests only need exactly one answer',
+    "jobs": {"quick": sdo_jobs("c04", True), "thorough": sdo_jobs("c04", False)},
 }
 
 PROPS["C05"] = {
     "level": "model_checking",
     "technique": "reachability closure of the real SDO server under the full command alphabet + recovery probes (abort / reset communication, then clean transfers) in every reachable state, differential against a fresh node",
-    "text": "tbd", "note": "tbd",
-    "jobs": {
-        "quick": [J("c05", 0, defs=SC3, depth=40, deadline=100, opts={"coarse": 1})],
-        "thorough": [J("c05", 0, defs=SC3, depth=40, deadline=900, opts={"coarse": 1})],
-    },
+    "text": 'The C04 exploration (closed state space of the scaled-buffer server) with a recovery probe in every discovered state: on a copy of the state, [client abort] resp. [NMT reset communication] followed by each of 7 clean transfers (expedited/segmented/block up- and downloads of integers, domains below and above the buffer size, strings; with a lost block segment and a partial block acknowledge). Each must succeed with correct data and its complete frame trace must equal the trace of the same transfer on a freshly initialised node; the reference server runs in lockstep.',
+    "note": 'same reductions as C04; probes run after application data has been rewritten to its initial values (the comparison is about protocol behaviour)',
+    "jobs": {"quick": sdo_jobs("c05", True), "thorough": sdo_jobs("c05", False)},
 }
 
 REAL4K = ["SDO_DS2=4000"]
@@ -65,7 +80,8 @@ TWO = ["CO_SSDO_N=2", "SDO_DS2=1000"]
 PROPS["C02"] = {
     "level": "model_checking",
     "technique": "deviation-bounded exhaustive enumeration of conforming download clients (all modes, size indications, last-segment fills, lost-segment placements, two-server interleavings) against the real server with the reference server in lockstep",
-    "text": "tbd", "note": "tbd",
+    "text": 'Every conforming download dialogue of the enumerated space is executed against the real server (real 889-byte buffer): domain sizes 1..30, 7k+-1 up to 71, 885..900, 1777..1780, 2000, 3999, 4000 (quick: 28 of them) x payload length {S, S-1, 1, S+1} x {expedited s=1/s=0, segmented, block} x size announced or not, position-dependent payload; block mode additionally with every placement of <=1 (quick) / <=2 (thorough) lost segment transmissions followed by the prescribed retransmission; integers direct/referenced/node-id-relative with lengths size-1..size+1; two servers: every interleaving of a scripted transfer on the second server with a segmented or block transfer on the first. Oracle: reference server in lockstep (every response field CiA 301 fixes) plus end-to-end comparison of the object bytes, untouched tail and refusal of over-long payloads.',
+    "note": 'losing the final segment of a block is not recoverable by a conforming client and is excluded; for 4000-byte transfers the second loss is placed in the neighbourhood of the first and at block boundaries',
     "jobs": {
         "quick": [J("c02", 0, defs=REAL4K, deadline=120), J("c02", 1, defs=REAL4K), J("c02", 2, defs=TWO, deadline=120)],
         "thorough": [J("c02", 0, defs=REAL4K, deadline=1500), J("c02", 1, defs=REAL4K), J("c02", 2, defs=TWO, deadline=900)],
@@ -75,7 +91,8 @@ PROPS["C02"] = {
 PROPS["C03"] = {
     "level": "model_checking",
     "technique": "deviation-bounded exhaustive enumeration of conforming upload clients (segmented; block with every block size, every acknowledge position per block, block size changes) against the real server with the reference server in lockstep",
-    "text": "tbd", "note": "tbd",
+    "text": 'Every conforming upload dialogue of the enumerated space runs against the real server: domains and strings of the C02 size list with two contents each, integers and fixed strings; segmented/expedited as the server chooses; block mode with every block size 1..127 (sizes <= 200; {1,2,3,7,63,64,126,127} above) and, per block, every acknowledge position k in 0..sent combined with a block size change in {1,2,b-1,b+1,127} - one deviation per transfer (quick) or two (thorough, sizes <= 200); each transfer is run twice back-to-back. Oracle: reference server in lockstep (sequence numbers, last flag, n, announced size, data per segment) plus end-to-end comparison of the assembled bytes and length.',
+    "note": 'deviations are placed in the first 64 blocks of a transfer; quick tier uses boundary acknowledge positions for objects > 200 bytes',
     "jobs": {
         "quick": [J("c03", c, defs=REAL4K, deadline=150) for c in range(3, 17)] + [J("c03", 2, defs=REAL4K)],
         "thorough": [J("c03", c, defs=REAL4K, deadline=1500) for c in range(3, 17)] + [J("c03", 2, defs=REAL4K)],
